@@ -347,7 +347,9 @@ def c06_compiled(rep, tier, seed):
                 dict(eps=0, history=["run", "run"], jit=False)]
 
     def modes_of(i):
-        return [ALL_MODES[(i * 2) % 6] + [{}], ALL_MODES[(i * 2 + 3) % 6] + [{}]] if quick else [m + [{}] for m in ALL_MODES]
+        # the last mode of every job compiles with Graph(skip=[one non-supervisor node]): that node's step must never execute
+        return ([ALL_MODES[(i * 2) % 6] + [{}], ALL_MODES[(i * 2 + 3) % 6] + [{"skip_nonsup": i}]] if quick
+                else [m + [{}] for m in ALL_MODES] + [ALL_MODES[i % 6] + [{"skip_nonsup": i}], ALL_MODES[(i + 3) % 6] + [{"skip_nonsup": i + 1}]])
 
     jobs = _run_jobs_for(seed + 300, 2 if quick else 12, "c06c", runs_of, modes_of)
     results, run_items, vs, metas = _run_campaign(rep, jobs, {"C06"})
